@@ -142,7 +142,7 @@ fn renderings(secret: &[u8]) -> Vec<String> {
 /// sequence among the decimal numbers of the text however they are separated (pretty-printed arrays), and any
 /// base64 or hex run of the text that decodes to bytes containing an 8-byte window of the secret (the secret may sit
 /// at any offset inside a longer encoded buffer)
-fn leaks(text: &str, secret: &[u8]) -> bool {
+pub(crate) fn leaks(text: &str, secret: &[u8]) -> bool {
     use base64::Engine;
     if secret.iter().all(|b| *b == 0) { return false; }
     for r in renderings(secret) {
